@@ -45,7 +45,7 @@ def ensure_model(domains):
 
 
 ALL_DOMAINS = ["Card", "Logic", "Comb", "Text", "Out", "Cont", "Design", "Layout", "Decode", "Compile", "Check", "Random",
-               "Front", "Hist", "Derive", "SM"]
+               "Front", "Hist", "Derive", "SM", "Iterate", "DocSem"]
 
 
 def setup():
@@ -101,7 +101,8 @@ def main():
         tie_problems += problems
     else:
       with common.build_lock():
-        ok, log = common.ensure_build(["theories/Properties/%s.vo" % prop])
+        extra_files = list(getattr(mod, "EXTRA_PROPERTY_FILES", []))
+        ok, log = common.ensure_build(["theories/Properties/%s.vo" % x for x in [prop] + extra_files])
         if not ok:
             tie_problems.append("coq build failed: " + log.strip()[-600:])
         ok, log = ensure_model(domains)
@@ -112,6 +113,14 @@ def main():
             tie_problems.append("forbidden tokens in development: " + "; ".join(bad[:5]))
         obligations, discharged, axioms, theorems, problems = common.property_audit(prop)
         tie_problems += problems
+        # further theorem files this property's check relies on (same discipline, same audit)
+        for x in extra_files:
+            o2, d2, a2, t2, p2 = common.property_audit(x)
+            obligations += o2
+            discharged += d2
+            axioms = sorted(set(axioms) | set(a2))
+            theorems = list(theorems) + list(t2)
+            tie_problems += p2
 
     res = Result()
     try:
